@@ -382,6 +382,26 @@ var searchLoops = map[string]string{
 	"(*kernel.Node).nodeSequenceWithoutState|all nodes":        "records are sorted by timestamp: the scan stops at the first record not before the threshold (gated by C11)",
 }
 
+// conditionalLoops: anchored loops that are legitimately skipped on some accepting path
+// (inner loops, loops under a branch, idempotent early returns, single-element fast paths).
+var conditionalLoops = map[string]string{
+	"(*common.Transaction).validateOutputs|o.Keys":                  "inner loop over one output's keys",
+	"(*kernel.CacheRound).validateSnapshot|s.Transactions":          "inner loop, entered per existing snapshot",
+	"(*kernel.Chain).cosiSendAnnouncement|transactions":             "second scan, only on the duplicate-transaction path",
+	"(*kernel.Chain).resetCosiStateForNewRound|agg transactions":    "inner loop per aggregator",
+	"(*kernel.Node).buildUniversalMintTransaction|mints":            "the no-mint-possible path returns before distribution",
+	"(*kernel.Node).validateKernelSnapshot|found":                   "single-transaction snapshots take the consensus-class path",
+	"(*storage.BadgerStore).WriteRoundWork$1|credit apply":          "no credit when nothing is fresh or credit is off",
+	"(*storage.BadgerStore).WriteRoundWork$1|credit build":          "no credit when nothing is fresh or credit is off",
+	"(*storage.BadgerStore).WriteRoundWork$1|missing scan":          "replay branch only (round == off)",
+	"(*storage.BadgerStore).WriteRoundWork$1|replay scan":           "replay branch only (round == off)",
+	"(*storage.BadgerStore).WriteRoundWork$1|signers":               "inner loop per fresh snapshot",
+	"common.validateUTXO|sigs[index]":                               "signature-map branch only (the aggregate branch has its own scan)",
+	"crypto.BatchVerify|add loop":                                   "the single-pair fast path delegates to Key.Verify",
+	"p2p.buildTransactionsPayload|txs":                              "rotated `for range n` loop: the zero-trip guard skips it for an empty list",
+	"storage.finalizeTransaction|unspent outputs":                   "idempotent early return when the finalization record exists (C15)",
+}
+
 // loopVisitsAll records, once per check and loop, that an anchored loop visits every element.
 func (c *Check) loopVisitsAll(fn *ssa.Function, lp *Loop) {
 	if fn == nil || lp == nil {
@@ -399,6 +419,20 @@ func (c *Check) loopVisitsAll(fn *ssa.Function, lp *Loop) {
 		return
 	}
 	c.loopSeen[lp.Header] = true
+	if _, cond := conditionalLoops[k]; !cond {
+		cut := map[Edge]bool{}
+		for _, p := range lp.Header.Preds {
+			cut[Edge{p.Index, lp.Header.Index}] = true
+		}
+		seen := reachable(fn, fn.Blocks[0], cut)
+		skip := ""
+		for _, r := range acceptReturns(fn) {
+			if seen[r.Block().Index] && r.Block() != fn.Recover {
+				skip = instrPos(c.W, r)
+			}
+		}
+		c.Require(skip == "", "loopfirst", k+"|no accepting return bypasses the loop", "every accepting return of the function is reached through the scan of loop "+name+" (no shortcut accepts before the per-element checks)", "an accepting return at "+skip+" is reachable without entering the loop", c.W.Pos(fn.Pos()))
+	}
 	if _, ok := searchLoops[k]; ok {
 		return
 	}
